@@ -1449,7 +1449,11 @@ class Interp:
                 if not isinstance(v, Num):
                     ok = False
                     break
-                if v.term == A:
+                if v.term == A + X and v.term != A and v.term != X:
+                    # running sum: acc' = acc + element on this back edge
+                    k = 'sum'
+                    changed = True
+                elif v.term == A:
                     # unchanged: element must not beat the accumulator
                     ge = o.ctx.decide(cmp_term('Le', X, A)) is True
                     le_ = o.ctx.decide(cmp_term('Ge', X, A)) is True
@@ -1476,6 +1480,11 @@ class Interp:
             cont, kk = self.resolve(st, fr, places[n])
             init = cont[kk]
             if not isinstance(init, Num):
+                continue
+            if kind == 'sum':
+                # same normal form as Iterator::sum over the sequence (float addition order: init, then the elements in order)
+                term = init.term + t_app('sum', [seq])
+                out.append((places[n], term, init.ty))
                 continue
             term = self.fold_term(kind, init.term, seq, st.ctx, seq_len)
             if term is not None:
